@@ -14,6 +14,9 @@ META = {
     "level": "Decides: (R1) generate_filter builds And(Or(not masked, unmasked) or just not masked, *extra) and filter_repo filters with sentinel True; masks = repo masks, then each profile layer's (-removals, +additions) in order, then user masks; unmasks likewise; (R2) _apply_keywords_filter accepts on '**' regardless of the package's keywords, on '*' for any keyword not starting with '-' or '~', on '~*' for any '~' keyword, else on membership; every restriction _make_keywords_filter can return either routes through that function or is only used when no wildcard token is accepted; an empty accept entry means ~ARCH exactly on a stable system; (R3) the license filter expands ACCEPT_LICENSE followed by the matching package.license tokens, in that order and without de-duplication (the stream is order-sensitive), per alternative of the package's LICENSE, and compares with issuperset. Does NOT decide visibility for concrete configurations.",
     "note": "atom.match, incremental_expansion_license (C12) and the DNF of LICENSE (C06) are taken as given",
 }
+META["technique"] += "; " + 'effect analysis on the visibility decision functions'
+META["level"] += " Added after the second round of independent changes: " + "(R4) pull_data / iter_pull_data and the keyword and license decision functions write to nothing but objects they created: one package's entry cannot leak into the shared defaults."
+META["technique"] += "; " + 'generic pack G on the anchored files (optional-flag shift, closures outliving a loop iteration, single-pass iterables consumed twice, %-templates built from data, in-place writes to class-level / memoised objects, generators mutating what they yielded, memo keys that are projections)'
 DM = "pkgcore.ebuild.domain"
 
 
